@@ -32,6 +32,8 @@ def run(ctx):
     T = lib_taint.public_ids(ctx, P)
     lib_mem.sizeof_elements(ctx, P)
     lib_mem.capacity(ctx, P)
+    lib_mem.block_allocator(ctx, P)
+    lib_mem.logical_not_in_mask(ctx, P)
     lib_stats.early_exits(ctx, P)
     from sa.schema import load_schemas
     lib_schema.dict_interchange(ctx, P, load_schemas(P))
